@@ -111,9 +111,9 @@ impl Sut {
         r
     }
     /// SELECT * FROM t WHERE (e): per table row, how many times it came back
-    fn observe_where(&mut self, t: &Table, e: &Expr) -> QOut {
+    fn observe_where(&mut self, sty: u8, t: &Table, e: &Expr) -> QOut {
         if let Err(m) = self.ensure(t) { return QOut::Bad(format!("setup: {}", m)); }
-        let sql = format!("SELECT * FROM {} WHERE {}", t.name, e.to_sql());
+        let sql = format!("SELECT * FROM {} WHERE {}", t.name, e.to_sql_sty(sty));
         match self.run(&sql) {
             Caught::Panicked(_) => QOut::Panic,
             Caught::Done(Err(m)) => QOut::Err(m),
@@ -130,9 +130,9 @@ impl Sut {
         }
     }
     /// SELECT id, (e) FROM t: per table row 1 = TRUE, 0 = FALSE, 2 = NULL, 3 = anything else
-    fn observe_select(&mut self, t: &Table, e: &Expr) -> QOut {
+    fn observe_select(&mut self, sty: u8, t: &Table, e: &Expr) -> QOut {
         if let Err(m) = self.ensure(t) { return QOut::Bad(format!("setup: {}", m)); }
-        let sql = format!("SELECT id, {} FROM {}", e.to_sql(), t.name);
+        let sql = format!("SELECT id, {} FROM {}", e.to_sql_sty(sty), t.name);
         match self.run(&sql) {
             Caught::Panicked(_) => QOut::Panic,
             Caught::Done(Err(m)) => QOut::Err(m),
@@ -159,16 +159,21 @@ impl Sut {
 #[derive(Clone, Copy, PartialEq, Debug)]
 enum Shape { Where, Select }
 
-fn replay_line(shape: Shape, t: &Table, e: &Expr) -> String {
-    format!("{} {} e={}", if shape == Shape::Where { "where" } else { "select" }, t.to_line(), e.to_line())
+/// one line per case:  where|select sty=<0|1> cols=<IFT..> rows=<v,v;v,v|-> e=<prefix expr>
+fn replay_line(shape: Shape, sty: u8, t: &Table, e: &Expr) -> String {
+    format!("{} sty={} {} e={}", if shape == Shape::Where { "where" } else { "select" }, sty, t.to_line(), e.to_line())
 }
-fn parse_replay(l: &str) -> Option<(Shape, Table, Expr)> {
+fn parse_replay(l: &str) -> Option<(Shape, u8, Table, Expr)> {
     let l = l.split(" #").next().unwrap_or(l).trim();
     let (shape, rest) = if let Some(r) = l.strip_prefix("where ") { (Shape::Where, r) } else if let Some(r) = l.strip_prefix("select ") { (Shape::Select, r) } else { return None };
+    let rest = rest.strip_prefix("sty=")?;
+    let (sty, rest) = rest.split_once(' ')?;
+    let sty: u8 = sty.parse().ok()?;
+    if sty > 1 { return None; }
     let rest = rest.strip_prefix("cols=")?;
     let (cols, rest) = rest.split_once(" rows=")?;
     let (rows, e) = rest.split_once(" e=")?;
-    Some((shape, Table::from_line("t", cols, rows)?, Expr::from_line(e)?))
+    Some((shape, sty, Table::from_line("t", cols, rows)?, Expr::from_line(e)?))
 }
 
 fn top_kind(e: &Expr) -> &'static str {
@@ -190,13 +195,14 @@ fn reaches_unknown(t: &Table, e: &Expr) -> (bool, bool) {
     (defined, unknown)
 }
 
-fn emit(w: &mut CaseWriter, sut: &mut Sut, shape: Shape, t: &Table, e: &Expr, stream: &str) {
-    let out = match shape { Shape::Where => sut.observe_where(t, e), Shape::Select => sut.observe_select(t, e) };
-    if let QOut::Bad(m) = &out { eprintln!("c14: unexpected result shape: {} on {}", m, replay_line(shape, t, e)); }
-    let term = format!("{} {} {} {}", if shape == Shape::Where { "Where" } else { "Select" }, t.to_coq(), e.to_coq(), out.coq());
+fn emit(w: &mut CaseWriter, sut: &mut Sut, shape: Shape, sty: u8, t: &Table, e: &Expr, stream: &str) {
+    let out = match shape { Shape::Where => sut.observe_where(sty, t, e), Shape::Select => sut.observe_select(sty, t, e) };
+    if let QOut::Bad(m) = &out { eprintln!("c14: unexpected result shape: {} on {}", m, replay_line(shape, sty, t, e)); }
+    let term = format!("{} {} {} {} {}", if shape == Shape::Where { "Where" } else { "Select" }, sty, t.to_coq(), e.to_coq(), out.coq());
     let (defined, unknown) = reaches_unknown(t, e);
     let kind = format!("{}:{}:{}", stream, if shape == Shape::Where { "where" } else { "select" }, top_kind(e));
-    w.push(term, replay_line(shape, t, e), defined && unknown, &kind);
+    w.push(term, replay_line(shape, sty, t, e), defined && unknown, &kind);
+    if sty == 1 { w.count("style:bare_not", 1); }
     w.count(out.bucket(), 1);
     w.count(if shape == Shape::Where { "path:scan+FilterExec(eval_expr)" } else { "path:scan+ProjectExpr(evaluate_to_value)" }, 1);
     if !defined { w.count("spec:undefined_on_some_row", 1); }
@@ -209,7 +215,7 @@ fn gen(a: &Args) {
     if let Some(lines) = a.replay_lines() {
         for l in lines {
             match parse_replay(&l) {
-                Some((shape, t, e)) => emit(&mut w, &mut sut, shape, &t, &e, "replay"),
+                Some((shape, sty, t, e)) => emit(&mut w, &mut sut, shape, sty, &t, &e, "replay"),
                 None => eprintln!("c14: cannot parse replay line: {}", l),
             }
         }
@@ -237,10 +243,12 @@ fn gen(a: &Args) {
         for _ in 0..per_table {
             let depth = 1 + rng.below(4) as usize;
             let e = gen_pred(&mut rng, &t, &cfg, depth);
+            // style 1 (bare NOT) only where it changes the text, and only sometimes
+            let sty: u8 = if e.has_bare() && rng.chance(1, 3) { 1 } else { 0 };
             match rng.below(5) {
-                0 | 1 => emit(&mut w, &mut sut, Shape::Where, &t, &e, stream),
-                2 => emit(&mut w, &mut sut, Shape::Select, &t, &e, stream),
-                _ => { emit(&mut w, &mut sut, Shape::Where, &t, &e, stream); emit(&mut w, &mut sut, Shape::Select, &t, &e, stream); }
+                0 | 1 => emit(&mut w, &mut sut, Shape::Where, sty, &t, &e, stream),
+                2 => emit(&mut w, &mut sut, Shape::Select, sty, &t, &e, stream),
+                _ => { emit(&mut w, &mut sut, Shape::Where, sty, &t, &e, stream); emit(&mut w, &mut sut, Shape::Select, sty, &t, &e, stream); }
             }
         }
     }
@@ -271,11 +279,11 @@ fn search(a: &Args) {
             if sems.iter().any(|s| s.is_none()) { continue; }
             let want_rows: Vec<i64> = sems.iter().map(|s| if *s == Some(Tv::T) { 1 } else { 0 }).collect();
             let want_vals: Vec<i64> = sems.iter().map(|s| match s { Some(Tv::T) => 1, Some(Tv::F) => 0, _ => 2 }).collect();
-            if sut.observe_where(&t, &e) != QOut::Rows(want_rows) && fails.len() < 40 {
-                fails.push(format!("{} #k={}", replay_line(Shape::Where, &t, &e), rough_class(Shape::Where, &t, &e)));
+            if sut.observe_where(0, &t, &e) != QOut::Rows(want_rows) && fails.len() < 40 {
+                fails.push(format!("{} #k={}", replay_line(Shape::Where, 0, &t, &e), rough_class(Shape::Where, &t, &e)));
             }
-            if sut.observe_select(&t, &e) != QOut::Vals(want_vals) && fails.len() < 40 {
-                fails.push(format!("{} #k={}", replay_line(Shape::Select, &t, &e), rough_class(Shape::Select, &t, &e)));
+            if sut.observe_select(0, &t, &e) != QOut::Vals(want_vals) && fails.len() < 40 {
+                fails.push(format!("{} #k={}", replay_line(Shape::Select, 0, &t, &e), rough_class(Shape::Select, &t, &e)));
             }
             if tried >= budget { break 'outer; }
         }
